@@ -8,9 +8,18 @@ VERIF = os.path.dirname(os.path.dirname(os.path.abspath(__file__)))
 def main():
     props = [json.loads(l) for l in open(os.path.join(VERIF, "properties.jsonl"))]
     sys.path.insert(0, os.path.join(VERIF, "lib"))
-    import manifest_table
-    claims = manifest_table.CLAIMS
-    na = manifest_table.NOT_APPLICABLE
+    import manifest_table, glob, importlib
+    claims = dict(manifest_table.CLAIMS)
+    engines = list(manifest_table.ENGINES)
+    na = dict(manifest_table.NOT_APPLICABLE)
+    # components may keep their claims in their own lib/claims_<component>.py (CLAIMS, ENGINES, NOT_APPLICABLE)
+    for path in sorted(glob.glob(os.path.join(VERIF, "lib", "claims_*.py"))):
+        mod = importlib.import_module(os.path.basename(path)[:-3])
+        claims.update(getattr(mod, "CLAIMS", {}))
+        engines += [e for e in getattr(mod, "ENGINES", []) if e["name"] not in [x["name"] for x in engines]]
+        na.update(getattr(mod, "NOT_APPLICABLE", {}))
+    import registry
+    claims = {k: v for k, v in claims.items() if k in registry.CHECKS}
     checks = []
     for p in props:
         pid = p["id"]
@@ -32,7 +41,7 @@ def main():
         "version": 1,
         "setup_cmd": "bin/setup",
         "hooks": manifest_table.HOOKS,
-        "engines": manifest_table.ENGINES,
+        "engines": engines,
         "checks": checks,
         "notes": manifest_table.NOTES,
         "not_applicable": [{"property_id": p["id"], "reason": na.get(p["id"], "not yet claimed: machinery for this property is not built yet")}
